@@ -23,7 +23,7 @@ DATATYPES_UNKNOWN = [
     "http://ex.org/dt/a", "http://ex.org/dt/b", "urn:dt:c", "http://ex.org/dt#d",
     "dtnosep", "http://ex.org/dt/é",
 ]
-BNODES = ["b0", "b1", "b2", "b3", "n-4", "B5", "a", "g"]     # "a", "g": also IRIs without separator and lexical forms
+BNODES = ["b0", "b1", "b2", "b3", "n-4", "B5", "a", "g", "_:b1", "n1", "_:n1"]    # labels are opaque: "_:n1" and "n1" differ     # "a", "g": also IRIs without separator and lexical forms
 BNODES_GEN = BNODES + ["", "b é"]      # generic API only: any string is a label
 LANG_SPELLINGS = [["en", "EN"], ["pl"], ["en-gb", "en-GB"], ["de", "DE", "De"]]
 
